@@ -122,7 +122,7 @@ CHECKS['C19'] = dict(
     quick_is_thorough=True,
     level='model_checking',
     steps=[dict(mode='asan', bin='c19_justify')],
-    rule='fonts {Padauk, Scheherazade, charis, Awami_test, Annapurna, S-full (justification levels), S-full RTL, S-full and S-full RTL with the line-end flag (temporary line-end slots), S-full with the line-end flag and a line-end glyph id the font does not have, ...} x 3 (thorough 6) corpus texts of 5-9 (thorough 5-12) characters x dir flags 0..7 x {font NULL, ppm 24, on the synthesised fonts also a font with an advance callback (hinted)}; '
+    rule='fonts {Padauk, Scheherazade, charis, Awami_test, Annapurna, S-full (justification levels), S-full RTL, S-full and S-full RTL with the line-end flag (temporary line-end slots; extra texts c x 9 / 14 / 15 whose growth leaves exactly one free slot in the segment pool), S-full with the line-end flag and a line-end glyph id the font does not have, ...} x 3 (thorough 6) corpus texts of 5-9 (thorough 5-12) characters x dir flags 0..7 x {font NULL, ppm 24, on the synthesised fonts also a font with an advance callback (hinted)}; '
          'histories: EVERY subset of cluster-boundary break positions (up to 2^9 quick / 2^11 thorough) applied with gr_slot_linebreak_before, then for every line every (width in {-1,0,W/4,W,3W,1e6}) x flags 0..3 x (pFirst,pLast) in {NULL, whole line, inner, last-only, first-only, (first,NULL), (NULL,last), (second,NULL)}, '
          'plus the first one and two characters of the first text and a lone space as texts of their own; all calls applied one after another on the same segment; after EVERY call every line must still be the same slots in the same order with prev the inverse of next, finite origins and return value, unchanged gids when the font has no justification data; gr_seg_destroy + allocation balance at the end',
     state_meaning='states = break histories (one segment per subset of break positions); transitions = gr_seg_justify calls, each followed by the full integrity check of all lines',
@@ -227,7 +227,7 @@ CHECKS['C09'] = dict(
     level='model_checking',
     steps=[dict(mode='trk', bin='c09_threads'), dict(mode='tsan', bin='c09_threads')],
     rule='harness: N in {2,3} threads, each gr_face_featureval_for_lang + gr_make_seg on its own text (texts with overlapping glyph sets) + full dump + feature label + value label + find_fref + face info + is_char_supported + a font of its own on the shared face with a second segment that is justified + destroy (each thread asks for a different language of the font, none of them the first), on ONE cold shared face (gr_face_preloadAll) and ONE shared gr_make_font font; '
-         'fonts S-full, small.ttf, Padauk, S-full with one unreadable glyph (preloadAll must refuse it, the configuration is then vacuous) (thorough + Scheherazade, Awami_test, charis) x dir {0,1}. The library is compiled with -fsanitize=thread instrumentation and linked against our own __tsan_* runtime (src/sched/trk_runtime.cpp): every instrumented access is classified private (own stack / own allocation arena) or shared; '
+         'fonts S-full (two text sets, one with characters above U+FFFF: first use of the format-12 part of the cmap cache), small.ttf, Padauk, S-full with many pseudo-glyph characters, S-full-gmet (a rule reads the face-level ascent metric; no OS/2 table), S-full with one unreadable glyph (preloadAll must refuse it, the configuration is then vacuous) (thorough + Scheherazade, Awami_test, charis) x dir {0,1}. The library is compiled with -fsanitize=thread instrumentation and linked against our own __tsan_* runtime (src/sched/trk_runtime.cpp): every instrumented access is classified private (own stack / own allocation arena) or shared; '
          'two accesses are dependent iff same 8-byte granule, different threads, at least one write. Run 0 records the access sets; if the dependence relation is empty all interleavings are Mazurkiewicz-equivalent to the executed one (1 schedule class, reported with the event counts); otherwise (and always for the POSITIVE CONTROL configurations: lazily loading face, advance-callback font, and - the one that MUST show a conflict, independent of library internals - every thread letting the library write a tag into one caller-supplied buffer) '
          'every schedule with <= 2 preemptions at the dependent accesses is executed under a serialising scheduler from an identical cold state and each thread\'s result is compared with the single-threaded reference. Oracles: empty dependence relation (= no data race, the library has no synchronisation), no table callback during the parallel phase, per-thread result == sequential result. '
          'Cross-check: the same bodies run free 20x under the real ThreadSanitizer',
